@@ -282,7 +282,7 @@ def rule_flatten(ctx, r):
             continue
         try:
             got = interp_g.call(m, (), {}, self_obj=og)
-            got_s = sorted(str(x) for x in got)
+            got_s = sorted(str(x) for x in got) if isinstance(got, (list, set, tuple, frozenset)) else repr(got)
         except Raised as exc:
             got_s = f"<raises {exc.kind}>"
         except Unsupported as exc:
